@@ -210,3 +210,34 @@ pub fn key_range_for_files(files: &[(InternalKey, InternalKey)]) -> (InternalKey
 pub fn key_parts(k: &InternalKey) -> (Vec<u8>, u64) {
     (k.get_user_key().to_vec(), k.get_sequence_number())
 }
+
+// ---- tables -----------------------------------------------------------------------------------
+use crate::file_names::FileNameHandler;
+use crate::tables::errors::ReadError;
+use crate::tables::{Table, TableBuilder};
+use crate::{DbOptions, ReadOptions};
+use std::rc::Rc;
+
+/// Builds a table from (user key, seq, op, value) entries (given sorted) with the real
+/// TableBuilder and runs the real Table::get.  Outcome: "value:<hex>", "deleted", "notfound",
+/// or "error:<text>".
+pub fn table_get(entries: &[(Vec<u8>, u64, u8, Vec<u8>)], block_size: usize, user: &[u8], seq: u64) -> String {
+    let mut options = DbOptions::with_memory_env();
+    options.max_block_size = block_size;
+    let mut tb = TableBuilder::new(options.clone(), 77).unwrap();
+    for (u, s, op, v) in entries {
+        tb.add_entry(Rc::new(ikey(u, *s, *op)), v).unwrap();
+    }
+    tb.finalize().unwrap();
+    drop(tb);
+    let path = FileNameHandler::new(options.db_path().to_string()).get_table_file_path(77);
+    let file = options.filesystem_provider().open_file(&path).unwrap();
+    let table = Table::open(options.clone(), file).unwrap();
+    let lookup = InternalKey::new_for_seeking(user.to_vec(), seq);
+    match table.get(&ReadOptions::default(), &lookup) {
+        Ok(Some(v)) => format!("value:{}", v.iter().map(|b| format!("{:02x}", b)).collect::<String>()),
+        Ok(None) => "deleted".to_string(),
+        Err(ReadError::KeyNotFound) => "notfound".to_string(),
+        Err(e) => format!("error:{}", e),
+    }
+}
